@@ -78,17 +78,21 @@ def dropPrefix? : Str → Str → Option Str
   | _ :: _, [] => none
   | p :: ps, c :: cs => if p = c then dropPrefix? ps cs else none
 
-def spanSpace (s : Str) : Str × Str := s.span isSpace
+/-- `(takeWhile p, dropWhile p)` -/
+def spanP (p : Char → Bool) (s : Str) : Str × Str := (s.takeWhile p, s.dropWhile p)
+
+def spanSpace (s : Str) : Str × Str := spanP isSpace s
+
+/-- split off the maximal suffix whose characters satisfy `p`: (rest, suffix) -/
+def splitTrailing (p : Char → Bool) (s : Str) : Str × Str :=
+  let k := s.length - (s.reverse.takeWhile p).length
+  (s.take k, s.drop k)
 
 /-- `str.rstrip()`: (kept, removed) -/
-def rstrip (s : Str) : Str × Str :=
-  let removed := (s.reverse.takeWhile isSpace).reverse
-  (s.take (s.length - removed.length), removed)
+def rstrip (s : Str) : Str × Str := splitTrailing isSpace s
 
-/-- split at the last '\n': (up to and including it, after it); no newline: ([], s) -/
-def splitLastNl (s : Str) : Str × Str :=
-  let tail := (s.reverse.takeWhile (· != '\n')).reverse
-  (s.take (s.length - tail.length), tail)
+/-- split after the last '\n': (up to and including it, after it); no newline: ([], s) -/
+def splitLastNl (s : Str) : Str × Str := splitTrailing (· != '\n') s
 
 -- preprocessing (lexer.py:683-688) -------------------------------------------------------------------
 
@@ -115,14 +119,14 @@ def preprocess (cfg : Cfg) (src : Str) : Str :=
 -- root alternatives -----------------------------------------------------------------------------------
 
 inductive RootKind where
-  | raw | comment | block | variable | lineStmt | lineComment
+  | raw | comment | block | vari | lineStmt | lineComment
   deriving Repr, DecidableEq
 
 def RootKind.rank : RootKind → Nat   -- order of the token names, for `sorted(rules, reverse=True)`
-  | .variable => 5 | .lineStmt => 4 | .lineComment => 3 | .comment => 2 | .block => 1 | .raw => 0
+  | .vari => 5 | .lineStmt => 4 | .lineComment => 3 | .comment => 2 | .block => 1 | .raw => 0
 
 def RootKind.tk : RootKind → TK
-  | .raw => .rawBegin | .comment => .commentBegin | .block => .blockBegin | .variable => .variableBegin
+  | .raw => .rawBegin | .comment => .commentBegin | .block => .blockBegin | .vari => .variableBegin
   | .lineStmt => .lineStmtBegin | .lineComment => .lineCommentBegin
 
 /-- insertion into a list sorted descending by (length, rank) -/
@@ -134,7 +138,7 @@ def insertAlt (a : Nat × RootKind) : List (Nat × RootKind) → List (Nat × Ro
 /-- alternatives of the root regex in order: raw first, then `compile_rules` -/
 def rootAlts (cfg : Cfg) : List RootKind :=
   let base : List (Nat × RootKind) :=
-    [(cfg.commentStart.length, .comment), (cfg.blockStart.length, .block), (cfg.varStart.length, .variable)]
+    [(cfg.commentStart.length, .comment), (cfg.blockStart.length, .block), (cfg.varStart.length, .vari)]
   let base := match cfg.lineStmt with | some p => base ++ [(p.length, RootKind.lineStmt)] | none => base
   let base := match cfg.lineComment with | some p => base ++ [(p.length, RootKind.lineComment)] | none => base
   .raw :: (base.foldl (fun acc a => insertAlt a acc) []).map Prod.snd
@@ -150,87 +154,79 @@ def isBlank (c : Char) : Bool := c == ' ' || c == '\t' || c == '\x0b'        -- 
 
 /-- tag end of the form `\-E\s*|E` (variable end, and the tail of `raw`): (matched, rest) -/
 def matchEndMinusOrPlain (e : Str) (s : Str) : Option (Str × Str) :=
+  let plain : Option (Str × Str) := (dropPrefix? e s).map fun r2 => (e, r2)
   match s with
   | '-' :: r =>
-    match dropPrefix? e r with
-    | some r2 => let (ws, r3) := spanSpace r2; some ('-' :: e ++ ws, r3)
-    | none => match dropPrefix? e s with
-      | some r2 => some (e, r2)
-      | none => none
-  | _ => match dropPrefix? e s with
-    | some r2 => some (e, r2)
-    | none => none
+    (match dropPrefix? e r with
+     | some r2 => some ('-' :: e ++ (spanSpace r2).1, (spanSpace r2).2)
+     | none => plain)
+  | _ => plain
+
+/-- `E\n?` -/
+def matchPlainNl (trim : Bool) (e : Str) (s : Str) : Option (Str × Str) :=
+  match dropPrefix? e s with
+  | some r2 =>
+    (match trim, r2 with
+     | true, '\n' :: r3 => some (e ++ ['\n'], r3)
+     | _, _ => some (e, r2))
+  | none => none
 
 /-- tag end of the form `\+E|\-E\s*|E\n?` (block end, comment end, endraw): (matched, rest) -/
 def matchEnd3 (trim : Bool) (e : Str) (s : Str) : Option (Str × Str) :=
-  let plain : Option (Str × Str) :=
-    match dropPrefix? e s with
-    | some r2 => (match trim, r2 with
-      | true, '\n' :: r3 => some (e ++ ['\n'], r3)
-      | _, _ => some (e, r2))
-    | none => none
   match s with
   | '+' :: r =>
     (match dropPrefix? e r with
      | some r2 => some ('+' :: e, r2)
-     | none => plain)
+     | none => matchPlainNl trim e s)
   | '-' :: r =>
     (match dropPrefix? e r with
-     | some r2 => let (ws, r3) := spanSpace r2; some ('-' :: e ++ ws, r3)
-     | none => plain)
-  | _ => plain
+     | some r2 => some ('-' :: e ++ (spanSpace r2).1, (spanSpace r2).2)
+     | none => matchPlainNl trim e s)
+  | _ => matchPlainNl trim e s
+
+/-- `BS(\-|\+|)\s*KW\s*` followed by `tail`: (matched, sign, rest) -/
+def matchKeywordTag (bs kw : Str) (tail : Str → Option (Str × Str)) (s : Str) : Option (Str × Str × Str) :=
+  match dropPrefix? bs s with
+  | none => none
+  | some r1 =>
+    match dropPrefix? kw (spanSpace (takeSign r1).2).2 with
+    | none => none
+    | some r4 =>
+      match tail (spanSpace r4).2 with
+      | none => none
+      | some er => some (bs ++ (takeSign r1).1 ++ (spanSpace (takeSign r1).2).1 ++ kw ++ (spanSpace r4).1 ++ er.1,
+                         (takeSign r1).1, er.2)
+
+/-- a plain delimiter followed by the optional sign: (matched, sign, rest) -/
+def matchDelim (d : Str) (s : Str) : Option (Str × Str × Str) :=
+  match dropPrefix? d s with
+  | none => none
+  | some r1 => some (d ++ (takeSign r1).1, (takeSign r1).1, (takeSign r1).2)
+
+/-- optional horizontal blanks (class `bl`), the prefix, the optional sign -/
+def matchPrefixed (bl : Char → Bool) (p : Str) (s : Str) : Option (Str × Str × Str) :=
+  match dropPrefix? p (spanP bl s).2 with
+  | none => none
+  | some r2 => some ((spanP bl s).1 ++ p ++ (takeSign r2).1, (takeSign r2).1, (takeSign r2).2)
 
 /-- one alternative of the root regex at the current position.
     `prev` is the character before the position (for `^` and the look-behind).
     Returns (matched text, sign, rest). -/
 def matchAlt (cfg : Cfg) (prev : Option Char) (s : Str) : RootKind → Option (Str × Str × Str)
-  | .raw =>
-    match dropPrefix? cfg.blockStart s with
-    | none => none
-    | some r1 =>
-      let (sign, r2) := takeSign r1
-      let (w1, r3) := spanSpace r2
-      match dropPrefix? ['r', 'a', 'w'] r3 with
-      | none => none
-      | some r4 =>
-        let (w2, r5) := spanSpace r4
-        match matchEndMinusOrPlain cfg.blockEnd r5 with
-        | none => none
-        | some (e, r6) => some (cfg.blockStart ++ sign ++ w1 ++ ['r', 'a', 'w'] ++ w2 ++ e, sign, r6)
-  | .comment =>
-    match dropPrefix? cfg.commentStart s with
-    | none => none
-    | some r1 => let (sign, r2) := takeSign r1; some (cfg.commentStart ++ sign, sign, r2)
-  | .block =>
-    match dropPrefix? cfg.blockStart s with
-    | none => none
-    | some r1 => let (sign, r2) := takeSign r1; some (cfg.blockStart ++ sign, sign, r2)
-  | .variable =>
-    match dropPrefix? cfg.varStart s with
-    | none => none
-    | some r1 => let (sign, r2) := takeSign r1; some (cfg.varStart ++ sign, sign, r2)
+  | .raw => matchKeywordTag cfg.blockStart ['r', 'a', 'w'] (matchEndMinusOrPlain cfg.blockEnd) s
+  | .comment => matchDelim cfg.commentStart s
+  | .block => matchDelim cfg.blockStart s
+  | .vari => matchDelim cfg.varStart s
   | .lineStmt =>
     match cfg.lineStmt with
     | none => none
-    | some p =>
-      if prev == none || prev == some '\n' then
-        let (bl, r1) := s.span isBlank
-        match dropPrefix? p r1 with
-        | none => none
-        | some r2 => let (sign, r3) := takeSign r2; some (bl ++ p ++ sign, sign, r3)
-      else none
+    | some p => if prev == none || prev == some '\n' then matchPrefixed isBlank p s else none
   | .lineComment =>
     match cfg.lineComment with
     | none => none
     | some p =>
-      let atStart := prev == none || prev == some '\n'
-      let afterNonSpace := match prev with | some c => !isSpace c | none => false
-      if atStart || afterNonSpace then
-        let (bl, r1) := s.span isHSpace
-        match dropPrefix? p r1 with
-        | none => none
-        | some r2 => let (sign, r3) := takeSign r2; some (bl ++ p ++ sign, sign, r3)
-      else none
+      if prev == none || prev == some '\n' || (match prev with | some c => !isSpace c | none => false)
+      then matchPrefixed isHSpace p s else none
 
 def firstAlt (cfg : Cfg) (prev : Option Char) (s : Str) : List RootKind → Option (RootKind × Str × Str × Str)
   | [] => none
@@ -269,18 +265,7 @@ def findLazy {β : Type} (f : Str → Option (Str × β × Str)) : Str → Optio
 
 /-- `BS(\-|\+|)\s*endraw\s*(?:\+BE|\-BE\s*|BE\n?)`: (matched, sign, rest) -/
 def matchEndRaw (cfg : Cfg) (s : Str) : Option (Str × Str × Str) :=
-  match dropPrefix? cfg.blockStart s with
-  | none => none
-  | some r1 =>
-    let (sign, r2) := takeSign r1
-    let (w1, r3) := spanSpace r2
-    match dropPrefix? ['e', 'n', 'd', 'r', 'a', 'w'] r3 with
-    | none => none
-    | some r4 =>
-      let (w2, r5) := spanSpace r4
-      match matchEnd3 cfg.trimBlocks cfg.blockEnd r5 with
-      | none => none
-      | some (e, r6) => some (cfg.blockStart ++ sign ++ w1 ++ ['e', 'n', 'd', 'r', 'a', 'w'] ++ w2 ++ e, sign, r6)
+  matchKeywordTag cfg.blockStart ['e', 'n', 'd', 'r', 'a', 'w'] (matchEnd3 cfg.trimBlocks cfg.blockEnd) s
 
 -- tag rules ---------------------------------------------------------------------------------------------
 
@@ -288,50 +273,57 @@ def matchEndRaw (cfg : Cfg) (s : Str) : Option (Str × Str × Str) :=
 def digitRunF : Nat → Str → Str × Str
   | 0, s => ([], s)
   | n + 1, s =>
-    let d := s.takeWhile isDigit
-    let r := s.dropWhile isDigit
-    if d.isEmpty then ([], s)
-    else match r with
+    if (s.takeWhile isDigit).isEmpty then ([], s)
+    else match s.dropWhile isDigit with
       | '_' :: r2 =>
-        let (d2, r3) := digitRunF n r2
-        if d2.isEmpty then (d, r) else (d ++ '_' :: d2, r3)
-      | _ => (d, r)
+        if (digitRunF n r2).1.isEmpty then (s.takeWhile isDigit, s.dropWhile isDigit)
+        else (s.takeWhile isDigit ++ '_' :: (digitRunF n r2).1, (digitRunF n r2).2)
+      | _ => (s.takeWhile isDigit, s.dropWhile isDigit)
 
 def digitRun (s : Str) : Str × Str := digitRunF s.length s
 
 def isE (c : Char) : Bool := c == 'e' || c == 'E'
 
+/-- `\.D(_D)*` -/
+def matchFrac (s : Str) : Option (Str × Str) :=
+  match s with
+  | '.' :: r2 => if (digitRun r2).1.isEmpty then none else some ('.' :: (digitRun r2).1, (digitRun r2).2)
+  | _ => none
+
+/-- `[+\-]?` -/
+def takeExpSign : Str → Str × Str
+  | '+' :: r => (['+'], r)
+  | '-' :: r => (['-'], r)
+  | s => ([], s)
+
+/-- `e[+\-]?D(_D)*` -/
+def matchExpo (s : Str) : Option (Str × Str) :=
+  match s with
+  | e :: r2 =>
+    if isE e then
+      if (digitRun (takeExpSign r2).2).1.isEmpty then none
+      else some (e :: (takeExpSign r2).1 ++ (digitRun (takeExpSign r2).2).1, (digitRun (takeExpSign r2).2).2)
+    else none
+  | [] => none
+
 /-- `float_re` -/
 def matchFloat (prev : Option Char) (s : Str) : Option (Str × Str) :=
   if prev == some '.' then none else
-  let (ip, r1) := digitRun s
-  if ip.isEmpty then none else
-  -- optional fractional part
-  let frac : Option (Str × Str) := match r1 with
-    | '.' :: r2 => let (fp, r3) := digitRun r2; if fp.isEmpty then none else some ('.' :: fp, r3)
-    | _ => none
-  let expo (r : Str) : Option (Str × Str) := match r with
-    | e :: r2 =>
-      if isE e then
-        let (sg, r3) := (match r2 with | '+' :: r' => (['+'], r') | '-' :: r' => (['-'], r') | _ => ([], r2))
-        let (ep, r4) := digitRun r3
-        if ep.isEmpty then none else some (e :: sg ++ ep, r4)
-      else none
-    | [] => none
-  match frac with
-  | some (f, rf) =>
-    (match expo rf with
-     | some (x, rx) => some (ip ++ f ++ x, rx)
-     | none => some (ip ++ f, rf))     -- second alternative: required fractional part
+  if (digitRun s).1.isEmpty then none else
+  match matchFrac (digitRun s).2 with
+  | some f =>
+    (match matchExpo f.2 with
+     | some x => some ((digitRun s).1 ++ f.1 ++ x.1, x.2)
+     | none => some ((digitRun s).1 ++ f.1, f.2))     -- second alternative: required fractional part
   | none =>
-    (match expo r1 with
-     | some (x, rx) => some (ip ++ x, rx)
+    (match matchExpo (digitRun s).2 with
+     | some x => some ((digitRun s).1 ++ x.1, x.2)
      | none => none)
 
 /-- `(_?[digits])+` for a digit class -/
 def uDigits (ok : Char → Bool) : Str → Str × Str
-  | '_' :: c :: r => if ok c then let (d, r2) := uDigits ok r; ('_' :: c :: d, r2) else ([], '_' :: c :: r)
-  | c :: r => if c != '_' && ok c then let (d, r2) := uDigits ok r; (c :: d, r2) else ([], c :: r)
+  | '_' :: c :: r => if ok c then ('_' :: c :: (uDigits ok r).1, (uDigits ok r).2) else ([], '_' :: c :: r)
+  | c :: r => if c != '_' && ok c then (c :: (uDigits ok r).1, (uDigits ok r).2) else ([], c :: r)
   | [] => ([], [])
 
 def lower (c : Char) : Char := if 'A' ≤ c && c ≤ 'Z' then Char.ofNat (c.toNat + 32) else c
@@ -339,33 +331,36 @@ def isBin (c : Char) : Bool := c == '0' || c == '1'
 def isOct (c : Char) : Bool := '0' ≤ c && c ≤ '7'
 def isHex (c : Char) : Bool := isDigit c || ('a' ≤ lower c && lower c ≤ 'f')
 
+/-- `0[bB](_?[01])+` and friends -/
+def matchPrefInt (x : Char) (ok : Char → Bool) (s : Str) : Option (Str × Str) :=
+  match s with
+  | z :: p :: r =>
+    if z == '0' && lower p == x then
+      if (uDigits ok r).1.isEmpty then none else some (z :: p :: (uDigits ok r).1, (uDigits ok r).2)
+    else none
+  | _ => none
+
+/-- `[1-9](_?\d)*` | `0(_?0)*` -/
+def matchDecInt (s : Str) : Option (Str × Str) :=
+  match s with
+  | c :: r =>
+    if '1' ≤ c && c ≤ '9' then some (c :: (uDigits isDigit r).1, (uDigits isDigit r).2)
+    else if c == '0' then some (c :: (uDigits (· == '0') r).1, (uDigits (· == '0') r).2)
+    else none
+  | [] => none
+
 /-- `integer_re` (alternatives in order) -/
 def matchInt (s : Str) : Option (Str × Str) :=
-  let pref (x : Char) (ok : Char → Bool) : Option (Str × Str) :=
-    match s with
-    | z :: p :: r =>
-      if z == '0' && lower p == x then
-        let (d, r2) := uDigits ok r
-        if d.isEmpty then none else some (z :: p :: d, r2)
-      else none
-    | _ => none
-  match pref 'b' isBin with
+  match matchPrefInt 'b' isBin s with
   | some m => some m
-  | none => match pref 'o' isOct with
+  | none => match matchPrefInt 'o' isOct s with
     | some m => some m
-    | none => match pref 'x' isHex with
+    | none => match matchPrefInt 'x' isHex s with
       | some m => some m
-      | none =>
-        match s with
-        | c :: r =>
-          if '1' ≤ c && c ≤ '9' then let (d, r2) := uDigits isDigit r; some (c :: d, r2)
-          else if c == '0' then let (d, r2) := uDigits (· == '0') r; some (c :: d, r2)
-          else none
-        | [] => none
+      | none => matchDecInt s
 
 def matchName (s : Str) : Option (Str × Str) :=
-  let (w, r) := s.span isWord
-  if w.isEmpty then none else some (w, r)
+  if (s.takeWhile isWord).isEmpty then none else some (s.takeWhile isWord, s.dropWhile isWord)
 
 /-- body of a quoted string: up to the closing quote `q`, a backslash escapes any character -/
 def strBody (q : Char) : Str → Option (Str × Str)
@@ -402,32 +397,29 @@ inductive TagRes where
   deriving Repr
 
 def tagRule (prev : Option Char) (s : Str) : TagRes :=
-  let (ws, r) := spanSpace s
-  if !ws.isEmpty then .tok .whitespace ws r else
+  if !(spanSpace s).1.isEmpty then .tok .whitespace (spanSpace s).1 (spanSpace s).2 else
   match matchFloat prev s with
-  | some (m, r) => .tok .float m r
+  | some m => .tok .float m.1 m.2
   | none => match matchInt s with
-    | some (m, r) => .tok .integer m r
+    | some m => .tok .integer m.1 m.2
     | none => match matchName s with
-      | some (m, r) => .tok .name m r
+      | some m => .tok .name m.1 m.2
       | none => match matchString s with
-        | some (m, r) => .tok .string m r
+        | some m => .tok .string m.1 m.2
         | none => match matchOp s with
-          | some (m, r) => .tok .operator m r
+          | some m => .tok .operator m.1 m.2
           | none => .none
 
 /-- `\s*(\n|$)`: the whitespace run up to and including its last newline, or to the end of input -/
 def matchLineStmtEnd (s : Str) : Option (Str × Str) :=
-  let (ws, r) := spanSpace s
-  if r.isEmpty then some (ws, [])
-  else
-    let (upto, _) := splitLastNl ws
-    if upto.isEmpty then none else some (upto, s.drop upto.length)
+  if (spanSpace s).2.isEmpty then some ((spanSpace s).1, (spanSpace s).2)
+  else if (splitLastNl (spanSpace s).1).1.isEmpty then none
+  else some ((splitLastNl (spanSpace s).1).1, (splitLastNl (spanSpace s).1).2 ++ (spanSpace s).2)
 
 -- the main loop -----------------------------------------------------------------------------------------
 
 inductive St where
-  | root | comment | block | variable | raw | lineStmt | lineComment
+  | root | comment | block | vari | raw | lineStmt | lineComment
   deriving Repr, DecidableEq
 
 structure Loop where
@@ -454,7 +446,7 @@ def lstripText (cfg : Cfg) (lineStarting : Bool) (isVariable : Bool) (sign : Str
   else (text, [])
 
 def pushSt : RootKind → St
-  | .raw => .raw | .comment => .comment | .block => .block | .variable => .variable
+  | .raw => .raw | .comment => .comment | .block => .block | .vari => .vari
   | .lineStmt => .lineStmt | .lineComment => .lineComment
 
 /-- balancing of brackets on operator tokens (lexer.py:797-817) -/
@@ -471,11 +463,14 @@ def balance (bal : List Char) (op : Str) : Except ErrKind (List Char) :=
     else .ok bal
   | _ => .ok bal
 
+/-- only operator tokens take part in the bracket balancing -/
+def balanceFor (k : TK) (bal : List Char) (text : Str) : Except ErrKind (List Char) :=
+  if k == .operator then balance bal text else .ok bal
+
 def tagStep (l : Loop) (s : Str) : Except (ErrKind × Nat) (Loop × Str) :=
   match tagRule l.prev s with
   | .tok k text rest =>
-    let bal := if k == .operator then balance l.balancing text else .ok l.balancing
-    match bal with
+    match balanceFor k l.balancing text with
     | .error e => .error (e, l.lineno)
     | .ok b =>
       let l1 := emit { l with balancing := b } k text false
@@ -487,64 +482,73 @@ def tagStep (l : Loop) (s : Str) : Except (ErrKind × Nat) (Loop × Str) :=
 
 def finish (l : Loop) : List Tok := l.out.reverse
 
+inductive StepRes where
+  | cont (l : Loop) (rest : Str)
+  | done (r : LexRes)
+
+/-- one iteration of the `while True` loop: the first rule of the current state that matches -/
+def step (cfg : Cfg) (alts : List RootKind) (l : Loop) (s : Str) : StepRes :=
+  let st := match l.stack with | t :: _ => t | [] => St.root
+  let popped : Loop := { l with stack := l.stack.drop 1 }
+  match st with
+  | .root =>
+    (match findRoot cfg alts l.prev s with
+     | some (text, kind, matched, sign, rest) =>
+       let kr := lstripText cfg l.lineStarting (kind == .vari) sign text
+       let l1 := emit l .data kr.1 false
+       let l2 := emit l1 .ghost kr.2 false
+       let l3 := emit l2 kind.tk matched true
+       .cont { l3 with stack := pushSt kind :: l3.stack, lineStarting := matched.getLast? == some '\n',
+                       prev := lastOr matched (lastOr text l.prev) } rest
+     | none =>
+       if s.isEmpty then .done (.ok (finish l))
+       else .done (.ok (finish (emit l .data s false))))       -- `.+`, then end of input
+  | .comment =>
+    (match findLazy (fun x => (matchEnd3 cfg.trimBlocks cfg.commentEnd x).map fun (m, r) => (m, (), r)) s with
+     | some (text, matched, _, rest) =>
+       let l1 := emit popped .comment text false
+       let l2 := emit l1 .commentEnd matched true
+       .cont { l2 with lineStarting := matched.getLast? == some '\n', prev := lastOr matched l.prev } rest
+     | none =>
+       if s.isEmpty then .done (.ok (finish l)) else .done (.syntaxError (finish l) .missingEndComment l.lineno))
+  | .raw =>
+    (match findLazy (fun x => (matchEndRaw cfg x).map fun (m, sg, r) => (m, sg, r)) s with
+     | some (text, matched, sign, rest) =>
+       let kr := lstripText cfg l.lineStarting false sign text
+       let l1 := emit popped .data kr.1 false
+       let l2 := emit l1 .ghost kr.2 false
+       let l3 := emit l2 .rawEnd matched true
+       .cont { l3 with lineStarting := matched.getLast? == some '\n', prev := lastOr matched l.prev } rest
+     | none =>
+       if s.isEmpty then .done (.ok (finish l)) else .done (.syntaxError (finish l) .missingEndRaw l.lineno))
+  | .lineComment =>
+    let tr := spanP (· != '\n') s
+    let l1 := emit popped .lineComment tr.1 false
+    let l2 := emit l1 .lineCommentEnd [] true
+    .cont { l2 with lineStarting := tr.1.getLast? == some '\n', prev := lastOr tr.1 l.prev } tr.2
+  | _ =>   -- block, variable, line statement: an end rule, then the shared tag rules
+    let endMatch : Option (TK × Str × Str) :=
+      if !l.balancing.isEmpty then none else
+      match st with
+      | .block => (matchEnd3 cfg.trimBlocks cfg.blockEnd s).map fun (m, r) => (TK.blockEnd, m, r)
+      | .vari => (matchEndMinusOrPlain cfg.varEnd s).map fun (m, r) => (TK.variableEnd, m, r)
+      | _ => (matchLineStmtEnd s).map fun (m, r) => (TK.lineStmtEnd, m, r)
+    match endMatch with
+    | some (k, matched, rest) =>
+      let l1 := emit popped k matched true
+      .cont { l1 with lineStarting := matched.getLast? == some '\n', prev := lastOr matched l.prev } rest
+    | none =>
+      if s.isEmpty then .done (.ok (finish l))
+      else match tagStep l s with
+        | .error (e, ln) => .done (.syntaxError (finish l) e ln)
+        | .ok (l', rest) => .cont l' rest
+
 def loop (cfg : Cfg) (alts : List RootKind) : Nat → Loop → Str → LexRes
   | 0, l, _ => .fuel (finish l)
   | fuel + 1, l, s =>
-    let st := match l.stack with | t :: _ => t | [] => St.root
-    let popped : Loop := { l with stack := l.stack.drop 1 }
-    match st with
-    | .root =>
-      (match findRoot cfg alts l.prev s with
-       | some (text, kind, matched, sign, rest) =>
-         let (kept, removed) := lstripText cfg l.lineStarting (kind == .variable) sign text
-         let l1 := emit l .data kept false
-         let l2 := emit l1 .ghost removed false
-         let l3 := emit l2 kind.tk matched true
-         loop cfg alts fuel
-           { l3 with stack := pushSt kind :: l3.stack, lineStarting := matched.getLast? == some '\n',
-                     prev := lastOr matched (lastOr text l.prev) } rest
-       | none =>
-         if s.isEmpty then .ok (finish l)
-         else .ok (finish (emit l .data s false)))       -- `.+`, then end of input
-    | .comment =>
-      (match findLazy (fun x => (matchEnd3 cfg.trimBlocks cfg.commentEnd x).map fun (m, r) => (m, (), r)) s with
-       | some (text, matched, _, rest) =>
-         let l1 := emit popped .comment text false
-         let l2 := emit l1 .commentEnd matched true
-         loop cfg alts fuel { l2 with lineStarting := matched.getLast? == some '\n', prev := lastOr matched l.prev } rest
-       | none =>
-         if s.isEmpty then .ok (finish l) else .syntaxError (finish l) .missingEndComment l.lineno)
-    | .raw =>
-      (match findLazy (fun x => (matchEndRaw cfg x).map fun (m, sg, r) => (m, sg, r)) s with
-       | some (text, matched, sign, rest) =>
-         let (kept, removed) := lstripText cfg l.lineStarting false sign text
-         let l1 := emit popped .data kept false
-         let l2 := emit l1 .ghost removed false
-         let l3 := emit l2 .rawEnd matched true
-         loop cfg alts fuel { l3 with lineStarting := matched.getLast? == some '\n', prev := lastOr matched l.prev } rest
-       | none =>
-         if s.isEmpty then .ok (finish l) else .syntaxError (finish l) .missingEndRaw l.lineno)
-    | .lineComment =>
-      let (text, rest) := s.span (· != '\n')
-      let l1 := emit popped .lineComment text false
-      let l2 := emit l1 .lineCommentEnd [] true
-      loop cfg alts fuel { l2 with lineStarting := text.getLast? == some '\n', prev := lastOr text l.prev } rest
-    | .block | .variable | .lineStmt =>
-      let endMatch : Option (TK × Str × Str) :=
-        if !l.balancing.isEmpty then none else
-        match st with
-        | .block => (matchEnd3 cfg.trimBlocks cfg.blockEnd s).map fun (m, r) => (TK.blockEnd, m, r)
-        | .variable => (matchEndMinusOrPlain cfg.varEnd s).map fun (m, r) => (TK.variableEnd, m, r)
-        | _ => (matchLineStmtEnd s).map fun (m, r) => (TK.lineStmtEnd, m, r)
-      match endMatch with
-      | some (k, matched, rest) =>
-        let l1 := emit popped k matched true
-        loop cfg alts fuel { l1 with lineStarting := matched.getLast? == some '\n', prev := lastOr matched l.prev } rest
-      | none =>
-        if s.isEmpty then .ok (finish l)
-        else match tagStep l s with
-          | .error (e, ln) => .syntaxError (finish l) e ln
-          | .ok (l', rest) => loop cfg alts fuel l' rest
+    match step cfg alts l s with
+    | .cont l' rest => loop cfg alts fuel l' rest
+    | .done r => r
 
 def initLoop : Loop :=
   { stack := [], lineno := 1, lineStarting := true, balancing := [], prev := none, out := [] }
